@@ -986,7 +986,11 @@ class UnitQuaternion(Quaternion):
                 # UnitQuaternion(T) T is 4x4 homogeneous transformation matrix
                 self.data = [base.r2q(base.t2r(s))]
 
-            elif isinstance(s, np.ndarray) and s.shape[1] == 4:
+            elif isinstance(s, np.ndarray) and s.shape == (4,) and norm:
+                # UnitQuaternion(v) v is a non-unit ndarray(4): normalise it, as for the list form
+                self.data = [base.unit(s)]
+
+            elif isinstance(s, np.ndarray) and s.ndim == 2 and s.shape[1] == 4:
                 if norm:
                     self.data = [base.unit(x) for x in s]
                 else:
